@@ -1,5 +1,5 @@
 """C17 The compiler never crashes -- narrow: panic side-obligations of the compiler functions under contract (DESIGN 2/C17)."""
-from units import irfold, u256, c12, c13, c14, c07, c07idx, irtype, c13imm
+from units import irfold, u256, c12, c13, c14, c07, c07idx, c07red, irtype, c13imm
 
 LEVEL = "proof"
 TRUSTED = ["Kani 0.68 / CBMC 6.11 (panic, unwrap, slice-index, division and overflow checks are generated for every reachable operation)",
@@ -11,7 +11,7 @@ EXPLANATION = ""
 
 
 def build(tier):
-    us = irfold.build(tier) + irfold.build_ceval(tier) + u256.build(tier) + u256.build_literal(tier) + c12.build(tier) + c13.build(tier) + c14.build(tier) + c07idx.build(tier) + irtype.build(tier) + c13imm.build(tier)
+    us = irfold.build(tier) + irfold.build_ceval(tier) + u256.build(tier) + u256.build_literal(tier) + c12.build(tier) + c13.build(tier) + c14.build(tier) + c07idx.build(tier) + c07red.build(tier) + irtype.build(tier) + c13imm.build(tier)
     if tier == "thorough":
         us += c07.build(tier)
     for u in us:
